@@ -362,7 +362,7 @@ def run_case(case):
                     spec = c10.add_hostility(rng, spec)
                 if rng.random() < 0.25:
                     add_cycle(rng, spec)
-                phases = gen.gen_history(rng, spec, nphase=rng.randint(0, 2))
+                phases = gen.gen_history(rng, spec, nphase=rng.randint(0, 2), breaks=0.2)
                 cfgs = [c10.hostile_cfg(rng) for _ in range(len(phases) + 1)]
                 outs = sorted(gen.declared_outputs(spec))
                 r = rng.random()
